@@ -246,15 +246,17 @@ def run(tier):
             ('"a"', "", '\\ "b"'), ("", "1", ' "%s"'), ("", '"', "%s"), ("", '"', "%( 1 %)"), ("{", "", "} apply"), ("let A := {", "1", "}; A")]
     ncmds, nmeta = [], []
     for (o, m, c) in NEST:
-        for n in ((64, 1024, 2048, 3300, 8192, 30000) if tier == "quick" else (64, 255, 256, 1024, 1900, 2048, 3300, 3400, 5000, 8192, 12000, 30000, 100000)):
+        # (compile time grows with the cube of the depth for some constructs -- nested infix operators take 8 s at
+        # depth 1024 and 50 s at 2048 on an idle machine: slow, not hung; the budget per text is ten minutes)
+        for n in ((64, 1024, 3300, 8192, 30000) if tier == "quick" else (64, 255, 256, 1024, 1900, 2048, 3300, 3400, 5000, 8192, 12000, 30000, 100000)):
             txt = o * n + m + c * n + ('"' if m == '"' else "")
-            ncmds.append("\t".join(["parse", str(len(ncmds)), "t=60", zw.hexq(txt.encode())])); nmeta.append((o, m, c, n))
-    nby = {r.get("id"): r for r in zw.run_driver(os.path.join(plain, "bin", "zwdrv"), ncmds, wd, tag="nest", max_hangs=6)}
+            ncmds.append("\t".join(["parse", str(len(ncmds)), "t=600", zw.hexq(txt.encode())])); nmeta.append((o, m, c, n))
+    nby = {r.get("id"): r for r in zw.run_driver(os.path.join(plain, "bin", "zwdrv"), ncmds, wd, tag="nest", max_hangs=3)}
     for i, (o, m, c, n) in enumerate(nmeta):
         vd.cov["evaluations"] += 1
         r = nby.get(str(i)) or {}
         if r.get("status") == "skipped-after-hangs":
-            continue                       # six hangs are reported; the rest of the sweep is not run on such a tree
+            continue                       # three hangs are reported; the rest of the sweep is not run on such a tree
         if r.get("status") not in ("accepted", "rejected") or "contract" in r:
             vd.observe("deep nesting: `%s' x %d around `%s' closed by `%s' x %d: %s" % (o, n, m, c, n, r.get("status")), {"observed": r})
     vd.cov["traces_validated_against_impl"] = nontriv
